@@ -190,6 +190,9 @@ pub enum FileKind {
         flip_bit: Option<u64>,
         #[serde(default)]
         append: Option<String>,
+        /// modification time to give the file (unix seconds; may be negative)
+        #[serde(default)]
+        mtime: Option<i64>,
     },
     Bytes { hex: String },
     Directory,
